@@ -462,7 +462,12 @@ pub fn gen(focus: &str, seed: u64, count: u64) -> Vec<String> {
         // C15 / C04: sites a file or the library can describe but the optimiser never reaches: coordinates outside
         // [-1/2, 1/2] (the copies must still be wrapped into the one canonical cell)
         let body = if (focus == "C15" || focus == "C04") && body.contains(" x=") && !body.contains("mode=") && !body.contains("opt=") && g.chance(0.08) {
-            let (nx, ny) = (g.range(-3.2, 3.2), g.range(-3.2, 3.2));
+            // (a few cells away, or - exactly representable - millions and billions of cells away)
+            let far = |g: &mut Sm| -> f64 {
+                if g.chance(0.7) { g.range(-3.2, 3.2) }
+                else { *g.pick(&[0.25 + 2147483648., -(0.25 + 4294967296.), 0.375 + 1099511627776., -1000000.125, 65536.5, -2147483648.75]) }
+            };
+            let (nx, ny) = (far(&mut g), far(&mut g));
             body.split(' ').map(|t| if t.starts_with("x=") { format!("x={}", fmt_f(nx)) } else if t.starts_with("y=") { format!("y={}", fmt_f(ny)) } else { t.to_string() }).collect::<Vec<_>>().join(" ")
         } else { body };
         // C14: shell counts outside the optimiser's usual 0..3: negative (an empty range), and large
